@@ -174,6 +174,26 @@ Definition delete_join (tp tc : bool) (on wh : option expr) (ps cs : list row) :
   Ok ((if tp then (remove_idx pi ps, Z.of_nat (length pi)) else (ps, 0)),
       (if tc then (remove_idx ci cs, Z.of_nat (length ci)) else (cs, 0))).
 
+(* the same over any join kind (DELETE p, c FROM p LEFT / RIGHT / FULL JOIN c ON ..): every row carries its
+   position as one more column at its end, the join of Model/Query.v is taken over these rows (an outer join
+   pads that column with NULL too: the padded side contributes no record), WHERE filters the joined rows, and
+   the positions found in the kept rows are removed.  lw / rw = widths of p / c; the ON and WHERE conditions
+   address p's columns at 0.., c's columns at lw+1.. *)
+Definition with_idx (rows : list row) : list row :=
+  map (fun ir => snd ir ++ [VInt (Z.of_nat (fst ir))]) (combine (seq 0 (length rows)) rows).
+Definition idx_at (n : nat) (r : row) : list nat :=
+  match nth_error r n with Some (VInt z) => [Z.to_nat z] | _ => [] end.
+Definition kept_join_rows (k : jkind) (lw rw : nat) (on wh : option expr) (ps cs : list row) : res (list row) :=
+  do rows <- join_rows k on (S lw) (S rw) (with_idx ps) (with_idx cs);
+  match wh with None => Ok rows | Some c => filter_rows c rows end.
+Definition delete_join_k (k : jkind) (tp tc : bool) (lw rw : nat) (on wh : option expr) (ps cs : list row)
+  : res ((list row * Z) * (list row * Z)) :=
+  do kept <- kept_join_rows k lw rw on wh ps cs;
+  let pi := nodup_nat (flat_map (idx_at lw) kept) in
+  let ci := nodup_nat (flat_map (idx_at (S lw + rw)) kept) in
+  Ok ((if tp then (remove_idx pi ps, Z.of_nat (length pi)) else (ps, 0)),
+      (if tc then (remove_idx ci cs, Z.of_nat (length ci)) else (cs, 0))).
+
 (* UPDATE p SET .. FROM p JOIN c ON on [WHERE wh]: the SET expressions see the joined row as it was
    before the statement; a row of p that two kept joined rows would update is an error
    (the same cell set twice) *)
